@@ -11,7 +11,7 @@ def msgs(rng):
     cfg = R.packaged()
     bits = sorted(int(b) for b in cfg if b != '1' and cfg[b].get('field_processor') != 'PDS')
     out = []
-    for i in range(6):
+    for i in range(6 if rng.random() < 0.8 else 260):        # some files are several hundred records (> 16 / 64 KiB)
         m = {'MTI': '%04d' % rng.randint(1000, 1999)}
         for b in rng.sample(bits, rng.randint(2, 9)):
             v = R.sample_value(cfg[str(b)], rng, rng.randint(1, 40))
@@ -107,6 +107,8 @@ def oracle(inp):
         from cardutil.mciipm import VbsWriter, vbs_bytes_to_list
         recs = [bytes(rng.randrange(256) for _ in range(rng.randint(1, 300))) for _ in range(7)]
         recs[2:2] = [bytes(rng.randrange(256) for _ in range(n)) for n in (3500, 5999, 2024)]       # records spanning several blocks
+        if rng.random() < 0.2:
+            recs += [bytes(rng.randrange(256) for _ in range(rng.randint(50, 400))) for _ in range(300)]      # > 64 KiB
         f = io.BytesIO()
         with VbsWriter(f, blocked=fa == '1014') as w:
             w.write_many(recs)
